@@ -65,6 +65,10 @@ func dumpTokenFor(p *dsl.Program, pk *dsl.Packet, dump string, wantPath string) 
 						return false
 					}
 				case dsl.KMatch:
+					if ip == wantPath {
+						found, val = true, toks[pos]
+						return false
+					}
 					t := p.PacketByName(toks[pos])
 					pos++
 					if t == nil || !walk(t, ip) {
